@@ -43,21 +43,45 @@ MIN_INSTANCES = 10
 KEY_RX = re.compile(r"^'(?P<stem>[a-z_]+?)_%s(?:_%s)?' % (?P<args>.+)$")
 
 
+def key_parts(slice_node: ast.AST):
+    """('stem', [argument texts]) of a parameter key built as '<stem>_%s[_%s]' % (...) or as the equivalent f-string; None otherwise."""
+    if isinstance(slice_node, ast.JoinedStr) and slice_node.values and isinstance(slice_node.values[0], ast.Constant):
+        stem = slice_node.values[0].value
+        args = []
+        for v in slice_node.values[1:]:
+            if isinstance(v, ast.FormattedValue):
+                args.append(ast.unparse(v.value))
+            elif isinstance(v, ast.Constant) and v.value == "_":
+                continue
+            else:
+                return None
+        if stem.endswith("_") and args:
+            return stem[:-1], args
+        return None
+    if isinstance(slice_node, ast.Constant) and isinstance(slice_node.value, str):
+        return slice_node.value, []
+    txt = ast.unparse(slice_node)
+    m = KEY_RX.match(txt)
+    if m:
+        a = m.group("args").strip()
+        return m.group("stem"), [x.strip() for x in a.strip("()").split(",")]
+    return None
+
+
 def _store_key(target: ast.Subscript, n1: str, n2: str):
     if ast.unparse(target.value) != "params":
         return None
-    txt = ast.unparse(target.slice)
-    m = KEY_RX.match(txt)
-    if not m:
+    kp = key_parts(target.slice)
+    if kp is None or not kp[1]:
         return None
-    args = m.group("args")
-    if args == "name":
-        return (m.group("stem"), 0)
-    if args == f"(name, {n1}.name)":
-        return (m.group("stem"), 1)
-    if args == f"(name, {n2}.name)":
-        return (m.group("stem"), 2)
-    return (m.group("stem"), -1)
+    stem, args = kp
+    if args == ["name"]:
+        return (stem, 0)
+    if args == ["name", f"{n1}.name"]:
+        return (stem, 1)
+    if args == ["name", f"{n2}.name"]:
+        return (stem, 2)
+    return (stem, -1)
 
 
 def _collect(view: PathView, n1: str, n2: str) -> dict:
@@ -156,8 +180,13 @@ def constructor_mirror(ctx: Ctx, rule1: str, rule2: str, rule3: str, rule4: str)
                         probs[rule3].append((f"{a} of side {s1} ({x}) is not {b} of side {s2} ({y})", v, d))
             if d.get(("vpnconn_psk_own_id", 1)) != f"{p[7]}['left_id']" or d.get(("vpnconn_psk_own_id", 2)) != f"{p[7]}['right_id']":
                 probs[rule3].append(("own identities are not the left/right ids of the authentication settings", v, d))
-            if d.get(("vpnconn_psk_own_id_type", 1)) != f"'IP' if {p[7]}['left_id'] == '' else 'CUSTOM'":
-                probs[rule3].append((f"identity type of the left id is {d.get(('vpnconn_psk_own_id_type', 1))}", v, d))
+            # 'IP' if the id is empty else 'CUSTOM' (the conditional expression is a branch of the path)
+            conds_ = norm.conj([v.cond_formula(i) for i, st_ in enumerate(v.steps) if st_.kind == "cond"])
+            empty_id = v.formula_of(ast.parse(f"{p[7]}['left_id'] == ''", mode="eval").body, len(v.steps))
+            got_t = d.get(("vpnconn_psk_own_id_type", 1))
+            want_t = "'IP'" if norm.implies(conds_, empty_id) else ("'CUSTOM'" if norm.implies(conds_, norm.neg(empty_id)) else f"'IP' if {p[7]}['left_id'] == '' else 'CUSTOM'")
+            if got_t != want_t:
+                probs[rule3].append((f"identity type of the left id is {got_t}", v, d))
         # types written from the derived variant
         for stem, src1, idx in (("vpnconn_lan_type", p[4], 0), ("vpnconn_remote_type", p[5], 1), ("vpnconn_peer_type", p[6], 2)):
             w1 = d.get((stem, 1))
@@ -452,9 +481,13 @@ def key_agreement(ctx: Ctx, rule: str) -> None:
     for f in ctx.repo.all_functions(("vmnet/tunnel.py",)):
         for st in ast.walk(f.node):
             if isinstance(st, ast.Subscript) and isinstance(st.ctx, ast.Store):
-                for c in ast.walk(st.slice):
-                    if isinstance(c, ast.Constant) and isinstance(c.value, str) and c.value.startswith("vpnconn_"):
-                        written.add(stem(c.value))
+                kp = key_parts(st.slice)
+                if kp is not None and kp[0].startswith("vpnconn_"):
+                    written.add(stem(kp[0]))
+                else:
+                    for c in ast.walk(st.slice):
+                        if isinstance(c, ast.Constant) and isinstance(c.value, str) and c.value.startswith("vpnconn_"):
+                            written.add(stem(c.value.rstrip("_")))
     reads = []
     # readers outside the tunnel module consume what the constructor produced (inside it, user-provided optional keys are read too)
     for f in ctx.repo.all_functions(("vmnet/network.py",)):
@@ -463,8 +496,9 @@ def key_agreement(ctx: Ctx, rule: str) -> None:
             if isinstance(c, ast.Call) and call_name(c) == "get" and c.args and isinstance(c.args[0], ast.Constant) and isinstance(c.args[0].value, str):
                 key = c.args[0].value
             elif isinstance(c, ast.Subscript) and isinstance(c.ctx, ast.Load):
+                kp = key_parts(c.slice)
                 ks = [k.value for k in ast.walk(c.slice) if isinstance(k, ast.Constant) and isinstance(k.value, str)]
-                key = ks[0] if ks else None
+                key = kp[0] if kp is not None else (ks[0].rstrip("_") if ks else None)
             if key and key.startswith("vpnconn_"):
                 reads.append((f.ref, c.lineno, stem(key)))
     unknown = [(ref, k) for ref, _l, k in reads if k not in written]
